@@ -2,6 +2,7 @@ package main
 
 import (
 	"fmt"
+	"go/constant"
 	"go/token"
 	"go/types"
 
@@ -236,6 +237,95 @@ func rulesC13(w *World, r *Report) {
 			in := c.(ssa.Instruction)
 			dom := succ == in.Block() || succ.Dominates(in.Block())
 			r.Check(dom, "C13.R3", funcName(ctor)+":"+sc.Name(), w.instrPos(c), "after the lock", sc.Name()+" may run before the file is locked: a concurrent session's pages could be read or written")
+		}
+	}
+
+	// the open itself must not change the file: it happens before the lock is asked for, so O_TRUNC in the flag
+	// empties the file under the session that holds it
+	{
+		trunc := int64(0)
+		for _, imp := range w.LibP.Types.Imports() {
+			if imp.Path() == "os" {
+				if c, ok := imp.Scope().Lookup("O_TRUNC").(*types.Const); ok {
+					trunc, _ = constant.Int64Val(c.Val())
+				}
+			}
+		}
+		var flagArgs []ssa.Value
+		for _, f := range libFuncs(w) {
+			for _, c := range callsIn(f) {
+				if isCallToPkgFunc(c, "os", "OpenFile") && len(c.Common().Args) == 3 {
+					flagArgs = append(flagArgs, c.Common().Args[1])
+				}
+			}
+		}
+		bad := ""
+		nConst := 0
+		seen := map[ssa.Value]bool{}
+		var visit func(v ssa.Value)
+		visit = func(v ssa.Value) {
+			if seen[v] || bad != "" {
+				return
+			}
+			seen[v] = true
+			switch t := v.(type) {
+			case *ssa.Const:
+				if k, ok := constInt(t); ok {
+					nConst++
+					if trunc != 0 && k&trunc != 0 {
+						bad = "a flag value containing os.O_TRUNC"
+					}
+				}
+			case *ssa.BinOp:
+				visit(t.X)
+				visit(t.Y)
+			case *ssa.Phi:
+				for _, e := range t.Edges {
+					visit(e)
+				}
+			case *ssa.Convert:
+				visit(t.X)
+			case *ssa.ChangeType:
+				visit(t.X)
+			case *ssa.UnOp:
+				if t.Op != token.MUL {
+					visit(t.X)
+					return
+				}
+				if _, name, ok := fieldAddrOf(t.X); ok {
+					// every store to that field in the package
+					for _, g := range libFuncs(w) {
+						eachInstr(g, func(in ssa.Instruction) {
+							if st, isSt := in.(*ssa.Store); isSt {
+								if _, n2, ok2 := fieldAddrOf(st.Addr); ok2 && n2 == name {
+									visit(st.Val)
+								}
+							}
+						})
+					}
+				}
+			case *ssa.Parameter:
+				// the value the caller asked for (WithOpenFileFlag), or passed down from a caller in the package
+				for _, g := range libFuncs(w) {
+					for _, c := range callsIn(g) {
+						if c.Common().StaticCallee() == t.Parent() {
+							for i, q := range t.Parent().Params {
+								if q == t && i < len(c.Common().Args) {
+									visit(c.Common().Args[i])
+								}
+							}
+						}
+					}
+				}
+			}
+		}
+		for _, a := range flagArgs {
+			visit(a)
+		}
+		if trunc == 0 || len(flagArgs) == 0 {
+			r.Undecided("C13.R3", "openFileFlag:no-truncate", "-", "os.O_TRUNC or the os.OpenFile call not found")
+		} else {
+			r.Check(bad == "", "C13.R3", "openFileFlag:no-truncate", w.pos(oal.Pos()), fmt.Sprintf("%d constants reach the flag of os.OpenFile, none with O_TRUNC", nConst), "os.OpenFile is reached by "+bad+": open(2) empties the file before flock is even asked for, under the session that holds the lock")
 		}
 	}
 
